@@ -977,7 +977,8 @@ def _monotonic(rng, nx, ny, sym):
     from openaerostruct.geometry.monotonic_constraint import MonotonicConstraint
     s = _surf(rng, nx, ny, sym)
     return dict(factory=lambda: MonotonicConstraint(var_name="chord", surface=s), ints=[ny, int(sym)], consts=[],
-                inputs=OrderedDict(chord=rng.uniform(0.5, 3.0, size=ny)), outputs=["monotonic_chord"])
+                inputs=OrderedDict(chord=rng.uniform(0.5, 3.0, size=ny)), outputs=["monotonic_chord"],
+                pattern=dict(op="MonotonicPattern", ints=[ny, int(sym)], of="monotonic_chord", wrt="chord"))
 
 
 @spec("MultiCD", sym_opts=(False,))
